@@ -1,6 +1,6 @@
 CONSTANTS
   Mutant = "none"
-  Lvals = {"x", "class"}
+  Lvals = {"x", "y", "class"}
   LoopVals = {"y"}
   Roots = {"$resp", "x", "y"}
   RootSels = {"none"}
